@@ -111,7 +111,9 @@ class _Proxy:
 
 
 class Recorder:
-    def __init__(self, root, fail_at=None, fail_exc=InjectedFault):
+    def __init__(self, root, fail_at=None, fail_exc=InjectedFault, call_at=None, callback=None):
+        self.call_at = call_at          # index of the fs operation right before which callback() runs (an environment event
+        self.callback = callback        # landing at that point, e.g. the garbage collector finalising an older pipeline)
         self.root = os.path.abspath(root)
         self.points = []          # (label, state)
         self.ops = []             # (index, kind, relpath)
@@ -160,6 +162,12 @@ class Recorder:
                     files = dict(before[0])
                     files[rel] = files.get(rel, b'') + carrying[:off]
                     self.points.append(('torn %s %s at byte %d/%d' % (kind, rel, off, n), (files, before[1])))
+        if self.call_at is not None and idx == self.call_at and self.callback is not None:
+            self._in_shim += 1
+            try:
+                self.callback()
+            finally:
+                self._in_shim -= 1
         if self.fail_at is not None and idx == self.fail_at:
             self.fired = (idx, kind, rel)
             raise self.fail_exc('injected fault at fs op #%d (%s %s)' % (idx, kind, rel))
